@@ -28,6 +28,8 @@ type world struct {
 	until   map[string]time.Time // instance id -> end of its unhealthy window
 	nextID  int
 	pending []chan result // parked requests not yet finished
+	// instance id -> it was ejected and no request has been issued since that window ended (or it has not ended yet)
+	expiryUnseen map[string]bool
 }
 
 type result struct {
@@ -36,20 +38,89 @@ type result struct {
 }
 
 func newWorld(strategy string, weights []int) (*world, error) {
-	cfg := lab.BaseConfig(strategy, weights)
+	return newWorldCfg(lab.BaseConfig(strategy, weights), lab.NewFakeNet())
+}
+
+// newWorldCfg builds the balancer from a complete configuration (cfg.Backends are the synthetic
+// backends of lab.BaseConfig) on the given fake network. Probes of every backend are answered 200.
+func newWorldCfg(cfg *config.Config, fn *lab.FakeNet) (*world, error) {
 	lb, err := loadbalancer.NewLoadBalancer(cfg)
 	if err != nil {
 		return nil, err
 	}
-	w := &world{lb: lb, fn: lab.NewFakeNet(), host: map[string]string{}, bname: map[string]string{}, until: map[string]time.Time{}}
-	for i := range weights {
+	w := &world{lb: lb, fn: fn, host: map[string]string{}, bname: map[string]string{}, until: map[string]time.Time{}, expiryUnseen: map[string]bool{}}
+	for i := range cfg.Backends {
 		w.names = append(w.names, lab.BackendName(i))
 		w.host[lab.BackendName(i)] = lab.BackendHost(i)
 		w.bname[lab.BackendName(i)] = lab.BackendName(i)
+		fn.SetProbeBehaviour(lab.BackendHost(i), lab.Good)
 	}
-	w.nextID = len(weights)
+	w.nextID = len(cfg.Backends)
 	w.fn.Install(lb)
 	return w, nil
+}
+
+// eject opens an unhealthy window of length d for pool member id, the way Helios's own health
+// checking does (MarkBackendUnhealthy), and records it.
+func (w *world) eject(id string, d time.Duration) {
+	w.lb.MarkBackendUnhealthy(w.backend(id), d)
+	w.until[id] = time.Now().Add(d)
+	w.expiryUnseen[id] = true
+}
+
+// healthCfg is the health-checking / protection part of the configuration a history runs under.
+// None of it may change what C02 says: with every backend answering 200 to requests and to probes
+// nothing but the harness's own ejections opens an unhealthy window, whatever is switched on.
+type healthCfg struct {
+	Active    bool   `json:"active"`
+	IntervalS int    `json:"interval_s,omitempty"`
+	TimeoutS  int    `json:"timeout_s,omitempty"`
+	Path      string `json:"path,omitempty"`
+	Passive   bool   `json:"passive"`
+	Threshold int    `json:"unhealthy_threshold,omitempty"`
+	WindowS   int    `json:"unhealthy_timeout_s,omitempty"`
+	Breaker   bool   `json:"circuit_breaker"`
+	BrFail    int    `json:"cb_failure_threshold,omitempty"`
+	BrSucc    int    `json:"cb_success_threshold,omitempty"`
+	BrMax     int    `json:"cb_max_requests,omitempty"`
+	BrIntS    int    `json:"cb_interval_s,omitempty"`
+	BrToS     int    `json:"cb_timeout_s,omitempty"`
+}
+
+func genHealthCfg(rt *rapid.T) healthCfg {
+	var c healthCfg
+	// the shipped helios.yaml / README enable active and passive checks together; all four combinations are drawn
+	c.Active = rapid.IntRange(0, 9).Draw(rt, "active") < 6
+	if c.Active {
+		// probe rounds shorter than, comparable to and far longer than the unhealthy windows (1 s, 5 s, 30 s)
+		c.IntervalS = rapid.SampledFrom([]int{2, 2, 3, 5, 10, 30, 60, 3600}).Draw(rt, "interval")
+		c.TimeoutS = rapid.IntRange(1, min(c.IntervalS-1, 5)).Draw(rt, "timeout")
+		c.Path = rapid.SampledFrom([]string{"/health", "/healthz", "/", "/status/live"}).Draw(rt, "path")
+	}
+	c.Passive = rapid.IntRange(0, 9).Draw(rt, "passive") < 6
+	if c.Passive {
+		c.Threshold = rapid.IntRange(1, 5).Draw(rt, "threshold")
+		c.WindowS = rapid.SampledFrom([]int{1, 5, 30, 60}).Draw(rt, "unhealthy_timeout")
+	}
+	c.Breaker = rapid.IntRange(0, 9).Draw(rt, "breaker") < 3
+	if c.Breaker {
+		c.BrFail = rapid.IntRange(1, 5).Draw(rt, "cb_fail")
+		c.BrSucc = rapid.IntRange(1, 3).Draw(rt, "cb_succ")
+		c.BrMax = rapid.SampledFrom([]int{0, c.BrSucc, c.BrSucc + 2}).Draw(rt, "cb_max")
+		c.BrIntS = rapid.SampledFrom([]int{1, 10, 60}).Draw(rt, "cb_interval")
+		c.BrToS = rapid.SampledFrom([]int{1, 5, 30}).Draw(rt, "cb_timeout")
+	}
+	return c
+}
+
+func (c healthCfg) apply(cfg *config.Config) {
+	cfg.HealthChecks.Active.Enabled = c.Active
+	cfg.HealthChecks.Active.Interval, cfg.HealthChecks.Active.Timeout, cfg.HealthChecks.Active.Path = c.IntervalS, c.TimeoutS, c.Path
+	cfg.HealthChecks.Passive.Enabled = c.Passive
+	cfg.HealthChecks.Passive.UnhealthyThreshold, cfg.HealthChecks.Passive.UnhealthyTimeout = c.Threshold, c.WindowS
+	cfg.CircuitBreaker.Enabled = c.Breaker
+	cfg.CircuitBreaker.FailureThreshold, cfg.CircuitBreaker.SuccessThreshold, cfg.CircuitBreaker.MaxRequests = c.BrFail, c.BrSucc, c.BrMax
+	cfg.CircuitBreaker.IntervalSeconds, cfg.CircuitBreaker.TimeoutSeconds = c.BrIntS, c.BrToS
 }
 
 // backend finds the registered instance by its (unique) host.
@@ -127,7 +198,17 @@ func (w *world) check(u map[string]bool, poolAtDispatch []string, arrived bool, 
 		return fmt.Sprintf("request was not dispatched and answered %d %q", status, body)
 	}
 	if !allEjected {
-		return fmt.Sprintf("answered 503 'no healthy backend' while %d of %d backends are outside any unhealthy window (ejected %v, pool %v)", len(poolAtDispatch)-len(u), len(poolAtDispatch), keys(u), poolAtDispatch)
+		var free []string
+		for _, n := range poolAtDispatch {
+			if t, ok := w.until[n]; u[n] {
+				continue
+			} else if ok {
+				free = append(free, fmt.Sprintf("%s (its window ended %v ago)", n, time.Since(t)))
+			} else {
+				free = append(free, n+" (never ejected)")
+			}
+		}
+		return fmt.Sprintf("answered 503 'no healthy backend' while %d of %d backends are outside any unhealthy window: %s (ejected %v, pool %v)", len(poolAtDispatch)-len(u), len(poolAtDispatch), strings.Join(free, ", "), keys(u), poolAtDispatch)
 	}
 	return ""
 }
@@ -147,13 +228,16 @@ var advances = []time.Duration{300 * time.Millisecond, 900 * time.Millisecond, 1
 func clientAddr(k int) string { return fmt.Sprintf("10.%d.%d.%d:5%03d", k%7, (k/7)%251, k%253, k%1000) }
 
 func TestC02Failover(t *testing.T) {
-	sub := lab.Sub("failover-histories", "rapid histories over {eject(i,window) via MarkBackendUnhealthy, advance, add (sometimes under a name already in use), remove(name), set_strategy, request(client), hold (request parked in a backend), release, spin(k), steady (a request every 30 ms from 300 ms before to 200 ms after the next window expiry), inflight (a backend's in-flight count set to 0/1/99/100/101/500)} "+
-		"against the real LoadBalancer.ServeHTTP in virtual time (L1 scripted backends, all answer 200), 5 strategies x pools of 1..6 x weights 1..6; oracle: served backend is outside every unhealthy window the harness issued, "+
+	sub := lab.Sub("failover-histories", "rapid histories over {eject(i,window) via MarkBackendUnhealthy, incident (all / all but one / a drawn subset of the pool ejected at once with one window), advance, add (sometimes under a name already in use), remove(name), set_strategy, request(client), hold (request parked in a backend), release, spin(k), steady (a request every 30 ms from 300 ms before to 200 ms after the next window expiry), inflight (a backend's in-flight count set to 0/1/99/100/101/500)} "+
+		"against the real LoadBalancer.ServeHTTP in virtual time (L1 scripted backends, all answer 200 to requests and to probes), 5 strategies x pools of 1..6 x weights 1..6 "+
+		"x health-check configuration {active checks off / on with interval 2-3600 s (shorter and far longer than the windows), timeout 1-5 s, 4 probe paths; Helios's own ticker and prober run} x {passive checks off / on, threshold 1-5, unhealthy_timeout 1-60 s} x {circuit breaker off / on}; oracle: served backend is outside every unhealthy window the harness issued, "+
 		"and 'no healthy backend' 503 only when every pool member is inside one; non-trivial = history with a request issued while 1 <= ejected < pool size")
 	sub.NontrivialFloor(0.35)
 	sub.Floor("steady-traffic-across-expiry", 0.08)
 	sub.Floor("inflight-99plus", 0.08)
-	lab.Assume("L1: scripted RoundTripper replaces http.Transport; ejection is issued directly through MarkBackendUnhealthy (passive/active ejection rules are C04)")
+	sub.Floor("active-checks", 0.45)
+	sub.Floor("active+passive-checks", 0.25)
+	lab.Assume("L1: scripted RoundTripper replaces http.Transport and http.DefaultTransport (probes; every probe is answered 200); ejection is issued directly through MarkBackendUnhealthy (passive/active ejection rules are C04)")
 	maxLen := lab.Scale(40, 80)
 	lab.Check(t, sub, 4000, 120000, func(rt *rapid.T) {
 		strategy := rapid.SampledFrom(lab.Strategies).Draw(rt, "strategy")
@@ -165,201 +249,270 @@ func TestC02Failover(t *testing.T) {
 		for i := range weights {
 			weights[i] = rapid.IntRange(1, 6).Draw(rt, "w")
 		}
+		hc := genHealthCfg(rt)
 		steps := rapid.IntRange(1, maxLen).Draw(rt, "steps")
 		var hist []string
 		var viol string
 		partial := 0
 		requests := 0
+		afterExpiry, afterOutage := 0, 0
 		dupNames, switched, steady, loaded := false, false, false, false
 		inflight := map[string]int{}
-		rapid.SyncTest(rt, func(rt *rapid.T) {
-			w, err := newWorld(strategy, weights)
-			if err != nil {
-				rt.Fatalf("harness: %v", err)
-			}
-			defer w.lb.Stop()
-			defer func() {
-				w.fn.ReleaseAll()
-				synctest.Wait()
-			}()
-			doRequest := func(client string, park bool) {
-				w.settle()
-				now := time.Now()
-				u := w.ejected(now)
-				pool := append([]string(nil), w.names...)
-				if len(u) >= 1 && len(u) < len(pool) {
-					partial++
+		fn := lab.NewFakeNet()
+		// Helios's prober uses the default transport: it is the fake network while the case runs
+		fn.WithDefaultTransport(func() {
+			rapid.SyncTest(rt, func(rt *rapid.T) {
+				cfg := lab.BaseConfig(strategy, weights)
+				hc.apply(cfg)
+				if err := cfg.Validate(); err != nil {
+					rt.Fatalf("harness: configuration rejected: %v", err)
 				}
-				requests++
-				before := w.fn.Arrivals()
-				if park {
-					for _, h := range w.host {
-						w.fn.Set(h, lab.Park)
-					}
-					ch := make(chan result, 1)
-					go func() {
-						s, b, _, _ := lab.Serve(w.lb, lab.Request("GET", "/p", client, nil))
-						ch <- result{s, b}
-					}()
+				w, err := newWorldCfg(cfg, fn)
+				if err != nil {
+					rt.Fatalf("harness: %v", err)
+				}
+				defer w.lb.Stop()
+				defer func() {
+					w.fn.ReleaseAll()
 					synctest.Wait()
-					for _, h := range w.host {
-						w.fn.Set(h, lab.Good)
+				}()
+				doRequest := func(client string, park bool) {
+					w.settle()
+					synctest.Wait() // probe rounds due at this instant have run: the case does not depend on goroutine scheduling
+					now := time.Now()
+					u := w.ejected(now)
+					pool := append([]string(nil), w.names...)
+					if len(u) >= 1 && len(u) < len(pool) {
+						partial++
 					}
-					if w.fn.Arrivals() == before {
-						r := <-ch
-						viol = w.check(u, pool, false, "", r.status, r.body)
+					requests++
+					// the first request since a window ended (nothing but a probe round can have looked at that backend in between)
+					fresh := 0
+					for _, id := range pool {
+						if w.expiryUnseen[id] && !u[id] {
+							fresh++
+							delete(w.expiryUnseen, id)
+						}
+					}
+					if fresh > 0 {
+						afterExpiry++
+						if fresh == len(pool) {
+							afterOutage++
+						}
+					}
+					before := w.fn.Arrivals()
+					if park {
+						for _, h := range w.host {
+							w.fn.Set(h, lab.Park)
+						}
+						ch := make(chan result, 1)
+						go func() {
+							s, b, _, _ := lab.Serve(w.lb, lab.Request("GET", "/p", client, nil))
+							ch <- result{s, b}
+						}()
+						synctest.Wait()
+						for _, h := range w.host {
+							w.fn.Set(h, lab.Good)
+						}
+						if w.fn.Arrivals() == before {
+							r := <-ch
+							viol = w.check(u, pool, false, "", r.status, r.body)
+							return
+						}
+						w.pending = append(w.pending, ch)
+						viol = w.check(u, pool, true, w.fn.HostAt(before), 0, "")
 						return
 					}
-					w.pending = append(w.pending, ch)
-					viol = w.check(u, pool, true, w.fn.HostAt(before), 0, "")
-					return
+					s, b, _, _ := lab.Serve(w.lb, lab.Request("GET", "/r", client, nil))
+					if w.fn.Arrivals() > before+1 {
+						viol = "one request reached backends more than once"
+						return
+					}
+					if w.fn.Arrivals() == before {
+						viol = w.check(u, pool, false, "", s, b)
+						return
+					}
+					viol = w.check(u, pool, true, w.fn.HostAt(before), s, b)
+					if viol == "" && s != 200 {
+						viol = fmt.Sprintf("dispatched request answered %d, backend scripted 200", s)
+					}
 				}
-				s, b, _, _ := lab.Serve(w.lb, lab.Request("GET", "/r", client, nil))
-				if w.fn.Arrivals() > before+1 {
-					viol = "one request reached backends more than once"
-					return
-				}
-				if w.fn.Arrivals() == before {
-					viol = w.check(u, pool, false, "", s, b)
-					return
-				}
-				viol = w.check(u, pool, true, w.fn.HostAt(before), s, b)
-				if viol == "" && s != 200 {
-					viol = fmt.Sprintf("dispatched request answered %d, backend scripted 200", s)
-				}
-			}
-			for i := 0; i < steps && viol == ""; i++ {
-				k := rapid.IntRange(0, 99).Draw(rt, "op")
-				switch {
-				case k < 30: // request
-					c := rapid.IntRange(0, 40).Draw(rt, "client")
-					hist = append(hist, fmt.Sprintf("req(c%d)", c))
-					doRequest(clientAddr(c), false)
-				case k < 52: // eject
-					if len(w.names) == 0 {
-						continue
-					}
-					i := rapid.IntRange(0, len(w.names)-1).Draw(rt, "victim")
-					d := rapid.SampledFrom(windows).Draw(rt, "window")
-					name := w.names[i]
-					w.lb.MarkBackendUnhealthy(w.backend(name), d)
-					w.until[name] = time.Now().Add(d)
-					hist = append(hist, fmt.Sprintf("eject(%s,%v)", name, d))
-				case k < 58: // advance
-					d := rapid.SampledFrom(advances).Draw(rt, "advance")
-					time.Sleep(d)
-					hist = append(hist, fmt.Sprintf("adv(%v)", d))
-				case k < 61: // steady traffic across the next window expiry: a request every 30 ms from 300 ms before to 200 ms after it
-					var next time.Time
-					for _, name := range w.names {
-						if u := w.until[name]; u.After(time.Now()) && (next.IsZero() || u.Before(next)) {
-							next = u
-						}
-					}
-					if next.IsZero() {
-						continue
-					}
-					if d := time.Until(next) - 300*time.Millisecond; d > 0 {
-						time.Sleep(d)
-					}
-					hist = append(hist, fmt.Sprintf("steady(30ms across the expiry in %v)", time.Until(next)))
-					steady = true
-					for j := 0; j < 40 && viol == "" && time.Now().Before(next.Add(200*time.Millisecond)); j++ {
-						doRequest(clientAddr(200+j%7), false)
-						time.Sleep(30 * time.Millisecond)
-					}
-				case k < 64: // in-flight load as the balancer sees it: a backend's count jumps to a value around or far above 100
-					if len(w.names) == 0 {
-						continue
-					}
-					name := w.names[rapid.IntRange(0, len(w.names)-1).Draw(rt, "load_on")]
-					target := rapid.SampledFrom([]int{0, 1, 99, 100, 101, 500}).Draw(rt, "inflight")
-					b := w.backend(name)
-					for ; inflight[name] < target; inflight[name]++ {
-						b.IncrementConnections()
-					}
-					for ; inflight[name] > target; inflight[name]-- {
-						b.DecrementConnections()
-					}
-					loaded = loaded || target >= 99
-					hist = append(hist, fmt.Sprintf("inflight(%s=%d)", name, target))
-				case k < 68: // strategy switch at runtime: health state must survive it
-					to := rapid.SampledFrom(lab.Strategies).Draw(rt, "switch")
-					if err := w.lb.SetStrategy(to); err != nil {
-						rt.Fatalf("harness: SetStrategy(%s): %v", to, err)
-					}
-					w.fn.Install(w.lb)
-					switched = true
-					hist = append(hist, "strategy("+to+")")
-				case k < 74: // spin: several requests to move the rotation
-					m := rapid.IntRange(2, 7).Draw(rt, "spin")
-					hist = append(hist, fmt.Sprintf("spin(%d)", m))
-					for j := 0; j < m && viol == ""; j++ {
-						doRequest(clientAddr(100+j), false)
-					}
-				case k < 81: // hold: park a request in whichever backend the strategy picks
-					c := rapid.IntRange(0, 40).Draw(rt, "client")
-					hist = append(hist, fmt.Sprintf("hold(c%d)", c))
-					doRequest(clientAddr(c), true)
-				case k < 86: // release one parked request
-					var hs []string
-					for _, h := range w.host {
-						if w.fn.ParkedAt(h) > 0 {
-							hs = append(hs, h)
-						}
-					}
-					if len(hs) == 0 {
-						continue
-					}
-					sort.Strings(hs)
-					h := hs[rapid.IntRange(0, len(hs)-1).Draw(rt, "rel")]
-					w.fn.Release(h, lab.Good)
-					synctest.Wait()
-					hist = append(hist, "release("+w.nameOfHost(h)+")")
-				case k < 93: // add
-					if len(w.names) >= 6 {
-						continue
-					}
-					id := lab.BackendName(w.nextID)
-					host := lab.BackendHost(w.nextID)
-					w.nextID++
-					wt := rapid.IntRange(1, 6).Draw(rt, "addw")
-					name := id
-					if len(w.names) > 0 && rapid.IntRange(0, 3).Draw(rt, "dupname") == 0 {
-						// a second backend under a name that is already in use (the admin API and the
-						// configuration accept that); removal removes every backend of the name
-						name = w.bname[w.names[rapid.IntRange(0, len(w.names)-1).Draw(rt, "dupof")]]
-						dupNames = true
-					}
-					if err := w.lb.AddBackend(config.BackendConfig{Name: name, Address: "http://" + host, Weight: wt}); err != nil {
-						rt.Fatalf("harness: add: %v", err)
-					}
-					w.names = append(w.names, id)
-					w.host[id] = host
-					w.bname[id] = name
-					w.fn.Install(w.lb)
-					hist = append(hist, fmt.Sprintf("add(%s as %q,w%d)", id, name, wt))
-				default: // remove
-					if len(w.names) <= 1 {
-						continue
-					}
-					i := rapid.IntRange(0, len(w.names)-1).Draw(rt, "rm")
-					name := w.bname[w.names[i]]
-					w.lb.RemoveBackend(name)
-					var kept []string
-					for _, id := range w.names {
-						if w.bname[id] == name {
-							delete(w.until, id)
+				for i := 0; i < steps && viol == ""; i++ {
+					k := rapid.IntRange(0, 103).Draw(rt, "op")
+					switch {
+					case k < 30: // request
+						c := rapid.IntRange(0, 40).Draw(rt, "client")
+						hist = append(hist, fmt.Sprintf("req(c%d)", c))
+						doRequest(clientAddr(c), false)
+					case k < 52: // eject
+						if len(w.names) == 0 {
 							continue
 						}
-						kept = append(kept, id)
+						i := rapid.IntRange(0, len(w.names)-1).Draw(rt, "victim")
+						d := rapid.SampledFrom(windows).Draw(rt, "window")
+						name := w.names[i]
+						w.eject(name, d)
+						hist = append(hist, fmt.Sprintf("eject(%s,%v)", name, d))
+					case k >= 100: // one incident takes out the whole pool, all of it but one backend, or a drawn part of it - same instant, same window
+						if len(w.names) == 0 {
+							continue
+						}
+						d := rapid.SampledFrom(windows).Draw(rt, "window")
+						spare := -1
+						switch rapid.IntRange(0, 3).Draw(rt, "incident") {
+						case 0, 1: // everything
+						case 2:
+							spare = rapid.IntRange(0, len(w.names)-1).Draw(rt, "spare")
+						default:
+							spare = -2
+						}
+						var hit []string
+						for i, name := range w.names {
+							if i == spare || spare == -2 && rapid.IntRange(0, 1).Draw(rt, "hit") == 0 {
+								continue
+							}
+							w.eject(name, d)
+							hit = append(hit, name)
+						}
+						hist = append(hist, fmt.Sprintf("incident(%v,%v)", hit, d))
+					case k < 58: // advance
+						d := rapid.SampledFrom(advances).Draw(rt, "advance")
+						time.Sleep(d)
+						synctest.Wait()
+						hist = append(hist, fmt.Sprintf("adv(%v)", d))
+					case k < 61: // steady traffic across the next window expiry: a request every 30 ms from 300 ms before to 200 ms after it
+						var next time.Time
+						for _, name := range w.names {
+							if u := w.until[name]; u.After(time.Now()) && (next.IsZero() || u.Before(next)) {
+								next = u
+							}
+						}
+						if next.IsZero() {
+							continue
+						}
+						if d := time.Until(next) - 300*time.Millisecond; d > 0 {
+							time.Sleep(d)
+						}
+						hist = append(hist, fmt.Sprintf("steady(30ms across the expiry in %v)", time.Until(next)))
+						steady = true
+						for j := 0; j < 40 && viol == "" && time.Now().Before(next.Add(200*time.Millisecond)); j++ {
+							doRequest(clientAddr(200+j%7), false)
+							time.Sleep(30 * time.Millisecond)
+						}
+					case k < 64: // in-flight load as the balancer sees it: a backend's count jumps to a value around or far above 100
+						if len(w.names) == 0 {
+							continue
+						}
+						name := w.names[rapid.IntRange(0, len(w.names)-1).Draw(rt, "load_on")]
+						target := rapid.SampledFrom([]int{0, 1, 99, 100, 101, 500}).Draw(rt, "inflight")
+						b := w.backend(name)
+						for ; inflight[name] < target; inflight[name]++ {
+							b.IncrementConnections()
+						}
+						for ; inflight[name] > target; inflight[name]-- {
+							b.DecrementConnections()
+						}
+						loaded = loaded || target >= 99
+						hist = append(hist, fmt.Sprintf("inflight(%s=%d)", name, target))
+					case k < 68: // strategy switch at runtime: health state must survive it
+						to := rapid.SampledFrom(lab.Strategies).Draw(rt, "switch")
+						if err := w.lb.SetStrategy(to); err != nil {
+							rt.Fatalf("harness: SetStrategy(%s): %v", to, err)
+						}
+						w.fn.Install(w.lb)
+						switched = true
+						hist = append(hist, "strategy("+to+")")
+					case k < 74: // spin: several requests to move the rotation
+						m := rapid.IntRange(2, 7).Draw(rt, "spin")
+						hist = append(hist, fmt.Sprintf("spin(%d)", m))
+						for j := 0; j < m && viol == ""; j++ {
+							doRequest(clientAddr(100+j), false)
+						}
+					case k < 81: // hold: park a request in whichever backend the strategy picks
+						c := rapid.IntRange(0, 40).Draw(rt, "client")
+						hist = append(hist, fmt.Sprintf("hold(c%d)", c))
+						doRequest(clientAddr(c), true)
+					case k < 86: // release one parked request
+						var hs []string
+						for _, h := range w.host {
+							if w.fn.ParkedAt(h) > 0 {
+								hs = append(hs, h)
+							}
+						}
+						if len(hs) == 0 {
+							continue
+						}
+						sort.Strings(hs)
+						h := hs[rapid.IntRange(0, len(hs)-1).Draw(rt, "rel")]
+						w.fn.Release(h, lab.Good)
+						synctest.Wait()
+						hist = append(hist, "release("+w.nameOfHost(h)+")")
+					case k < 93: // add
+						if len(w.names) >= 6 {
+							continue
+						}
+						id := lab.BackendName(w.nextID)
+						host := lab.BackendHost(w.nextID)
+						w.nextID++
+						wt := rapid.IntRange(1, 6).Draw(rt, "addw")
+						name := id
+						if len(w.names) > 0 && rapid.IntRange(0, 3).Draw(rt, "dupname") == 0 {
+							// a second backend under a name that is already in use (the admin API and the
+							// configuration accept that); removal removes every backend of the name
+							name = w.bname[w.names[rapid.IntRange(0, len(w.names)-1).Draw(rt, "dupof")]]
+							dupNames = true
+						}
+						if err := w.lb.AddBackend(config.BackendConfig{Name: name, Address: "http://" + host, Weight: wt}); err != nil {
+							rt.Fatalf("harness: add: %v", err)
+						}
+						w.names = append(w.names, id)
+						w.host[id] = host
+						w.bname[id] = name
+						w.fn.SetProbeBehaviour(host, lab.Good)
+						w.fn.Install(w.lb)
+						hist = append(hist, fmt.Sprintf("add(%s as %q,w%d)", id, name, wt))
+					default: // remove
+						if len(w.names) <= 1 {
+							continue
+						}
+						i := rapid.IntRange(0, len(w.names)-1).Draw(rt, "rm")
+						name := w.bname[w.names[i]]
+						w.lb.RemoveBackend(name)
+						var kept []string
+						for _, id := range w.names {
+							if w.bname[id] == name {
+								delete(w.until, id)
+								delete(w.expiryUnseen, id)
+								continue
+							}
+							kept = append(kept, id)
+						}
+						w.names = kept
+						hist = append(hist, fmt.Sprintf("remove(%q)", name))
 					}
-					w.names = kept
-					hist = append(hist, fmt.Sprintf("remove(%q)", name))
 				}
-			}
+			})
 		})
 		labels := []string{strategy, fmt.Sprintf("n%d", n)}
+		if hc.Active {
+			labels = append(labels, "active-checks")
+			if hc.Passive {
+				labels = append(labels, "active+passive-checks")
+			}
+			if afterExpiry > 0 {
+				labels = append(labels, "active-checks:first-request-after-a-window-ended")
+			}
+			if afterOutage > 0 {
+				labels = append(labels, "active-checks:first-request-after-whole-pool-windows-ended")
+			}
+		} else if hc.Passive {
+			labels = append(labels, "passive-checks-only")
+		} else {
+			labels = append(labels, "no-health-checks")
+		}
+		if hc.Breaker {
+			labels = append(labels, "circuit-breaker")
+		}
 		if partial > 0 {
 			labels = append(labels, "request-while-partially-ejected")
 		}
@@ -375,11 +528,13 @@ func TestC02Failover(t *testing.T) {
 		if loaded {
 			labels = append(labels, "inflight-99plus")
 		}
-		sub.Case(map[string]any{"strategy": strategy, "weights": weights, "history": hist}, partial > 0, labels...)
+		sub.Case(map[string]any{"strategy": strategy, "weights": weights, "health": hc, "history": hist}, partial > 0, labels...)
+		sub.Count("probes", fn.TotalProbes())
+		sub.Count("requests-first-after-a-window-ended", afterExpiry)
 		sub.Count("requests", requests)
 		sub.Count("requests-while-partially-ejected", partial)
 		if viol != "" {
-			rt.Fatalf("strategy %s weights %v history %v: %s", strategy, weights, hist, viol)
+			rt.Fatalf("strategy %s weights %v health checks %+v history %v: %s", strategy, weights, hc, hist, viol)
 		}
 	})
 }
